@@ -53,6 +53,7 @@ def shards(tier):
     out.append({"kind": "b64-chars"})
     out.append({"kind": "value-chars"})
     out.append({"kind": "padding-lookalike"})
+    out.append({"kind": "keysafe-reuse"})
     out.append({"kind": "mixed-mac-pairs"})
     out.append({"kind": "phrase-terminators"})
     out.append({"kind": "sequences"})
@@ -172,6 +173,12 @@ def run_shard(shard, ctx):
                 for key_kind in ("plus", "slash", "both"):
                     run_case({"kind": "positive", "cipher": c, "mac": m, "kdf": KDFS[len(salt_kind) % 2], "rounds": 1, "salt": 16,
                               "phrase": 1, "len": 9, "layout": "one", "salt_kind": salt_kind, "key_kind": key_kind}, ctx)
+    elif kind == "keysafe-reuse":
+        # one KeySafe object asked several times (a passphrase prompt or a word-list loop): every sequence of right / wrong
+        # attempts of length 3, one- and three-pair safes
+        for seq in itertools.product("RW", repeat=3):
+            for lay in ("one", "three"):
+                run_case({"kind": "keysafe-reuse", "seq": "".join(seq), "layout": lay}, ctx)
     elif kind == "padding-lookalike":
         # configurations whose own last bytes look like an intact PKCS#7 padding (k bytes of value k): padding is always added
         # on top, so nothing is ambiguous
@@ -270,6 +277,29 @@ def run_case(case, ctx):
                                       {"seq": case["seq"]})
                         return
                     ctx.outcome("refused-wrong-passphrase" if what == "W" else "refused-tamper")
+            return
+        if case["kind"] == "keysafe-reuse":
+            from dissect.hypervisor.descriptor.vmx import KeySafe
+
+            text, outer, rblob, dblob, salt, dk = build("AES-256", "HMAC-SHA-1", KDFS[0], 1, 16, "password", config_text(9), case["layout"])
+            ks = KeySafe.from_text(VMX.parse(text).attr["encryption.keysafe"])
+            ctx.nontrivial += 1
+            for step, what in enumerate(case["seq"]):
+                ctx.transitions += 1
+                ctx.states += 1
+                try:
+                    key, mac = ks.unseal_with_phrase("password" if what == "R" else "passw0rd")
+                    ok = key == dk
+                except Exception:
+                    ok = None
+                if what == "R" and ok is not True:
+                    ctx.violation(case, {"subject": "keysafe.unseal.sequence", "kind": "right-passphrase-failed-after-history", "step": step},
+                                  {"seq": case["seq"]})
+                    return
+                if what == "W" and ok is not None:
+                    ctx.violation(case, {"subject": "keysafe.unseal.sequence", "kind": "accepted-after-history", "step": step}, {"seq": case["seq"]})
+                    return
+                ctx.outcome("unlocked" if what == "R" else "refused-wrong-passphrase")
             return
         if case["kind"] == "terminators":
             cfg = config_text(21)
